@@ -72,8 +72,8 @@ CLAIMS.update({
             "Coq proof (simulation + strict/warn agreement; all roots) + extracted specification as oracle + correspondence", "4 C04"),
     "C05": ("proof", "Proved for all inputs/roots/tables: Depleted <=> the decoder is suspended asking for a byte with the whole input handed over and nothing left; Superfluous carries exactly the non-empty unread rest (input = consumed ++ rest); a suspended decoder has used its input up (both modes). With C10_prefix_stable the events before a depleted error are a prefix of the full decode's events. That they are exactly the complete fields needs C01 (partial). Oracle: every/boundary cut points and suffixes of generated messages and streams, command code carried, clean stream ends only at message boundaries." + PART % "C05",
             "Coq proof (pump characterisation, accounting, incrementality) + cut/suffix enumeration oracle + correspondence", "4 C05"),
-    "C06": ("proof", "Termination is by construction (total Gallina function, loop exhaustion is the distinguished OFuel outcome). Proved: never pulls more than the input holds; the pump adds no failure mode (an undocumented outcome can only come from an enumerated internal site of the processor). Not yet proved: unreachability of those sites in strict mode for coherent tables. Oracle: exception classes escaping the implementation on random, mutated and mistyped inputs over all roots; correspondence compares outcome classes incl. crashes." + PART % "C06",
-            "Coq proof (partial) + crash oracle on arbitrary inputs + correspondence", "4 C06"),
+    "C06": ("proof", "Termination is by construction (total Gallina function; loop exhaustion is the distinguished OFuel outcome). PROVED IN FULL for the model in strict mode (C06_every_root_documented, Proofs/Safe1-4.v): for EVERY byte string and EVERY root - any non-union structure type passing safe_ty, commands, responses to a known command code with either encryption flag, streams shorter than the model's loop bound of 2^64 bytes - on tables passing msg_safe (the regenerated tables, all 231 decodable types and all 468 area types pass by computation) decoding ends accepted, with a constraint error, depleted or superfluous: never with an internal error, never at a loop bound; and it never pulls more than the input holds. Proof idea: nothing ever removes the limit of a constraint object; a completed strict run has charged every live listed region exactly the bytes it read and closed the regions it opened exactly filled (so the session loop reaches its size, by-product values have the declared shape, no listed region is live at the end of a response); every message takes at least one byte. NOT proved: warn mode. Tie to /repo: crash oracle (exception classes escaping the implementation on random, mutated and mistyped inputs over all roots) and the correspondence on outcome classes incl. crashes.",
+            "Coq proof (all roots, all inputs, strict mode) + crash oracle on arbitrary inputs + correspondence", "4 C06"),
     "C07": ("proof", "Proved for every decoder function, all tables, all states and inputs: a strict run that does not raise is reproduced exactly by warn mode; a strict run raising e after trace tr corresponds to a warn run that continues tr with (only for a value error) the offending event and then the warning wrapping the same e, or raises e itself after the same trace; through the pump: strict accepts => warn emits identical events and no warning; strict raises e => warn warns e after the same events; warn clean => strict accepts. Oracle: both modes on the same bytes (well-formed, fault-enumerated, cuts, random).",
             "Coq proof (relational structural induction strict vs warn, lifted through the pump) + correspondence + two-mode oracle", "4 C07"),
     "C08": ("proof", "PROVED: for EVERY root (structure types, commands, responses, streams below the model's loop bound; all inputs; tables passing msg_tables_ok): on a structurally consistent input warn mode emits exactly the lenient field-by-field events with one warning (the value error naming the leaf) directly after each offending event, and accepts (the simulation in mode false); warn-mode decodes that complete with value warnings only are tiled by their events (C02 with abort=false); an overrun skips exactly the rest of the violated region before it is reported; first-problem agreement (C07). NOT proved: that warn mode never aborts and that after any recovered size problem every byte is shown, skipped or listed (false at the pinned commit, repaired by fix: commits). Oracle: no escaping exception except the two allowed value errors; tiling recomputed from events and warnings (resume at declared end, surplus exact); value-only inputs = lenient specification + one warning directly after each offending event." + PART % "C08",
